@@ -38,6 +38,9 @@ type ptask struct {
 	wake   chan struct{}
 	parked bool
 	done   bool
+	// wasBlocked: confirmed waiting for a lock/channel at the previous decision; one further snapshot
+	// showing it waiting is then enough (cleared when the task parks)
+	wasBlocked bool
 }
 
 func NewParkSched(seed uint64) *ParkSched {
@@ -85,6 +88,7 @@ func (s *ParkSched) Yield() {
 		return
 	}
 	t.parked = true
+	t.wasBlocked = false
 	s.mu.Unlock()
 	if os.Getenv("VERIF_DEBUG") != "" {
 		pc := make([]uintptr, 12)
@@ -103,9 +107,34 @@ func (s *ParkSched) Yield() {
 	<-t.wake
 }
 
-// blockedGids returns the goroutines that the runtime reports as waiting (not running/runnable).
+// goroutine-state snapshots are process-wide (runtime.Stack stops the world), so concurrent schedulers
+// share them: snapshotAfter returns a snapshot of a later generation than gen, taking a new one - not
+// sooner than 30 microseconds after the previous one - only if nobody else has meanwhile.
+var snap struct {
+	mu      sync.Mutex
+	gen     uint64
+	at      time.Time
+	blocked map[uint64]bool
+}
+
+func snapshotAfter(gen uint64) (map[uint64]bool, uint64) {
+	snap.mu.Lock()
+	defer snap.mu.Unlock()
+	if snap.gen > gen {
+		return snap.blocked, snap.gen
+	}
+	if d := 30*time.Microsecond - time.Since(snap.at); d > 0 {
+		time.Sleep(d)
+	}
+	snap.blocked = blockedGids()
+	snap.gen++
+	snap.at = time.Now()
+	return snap.blocked, snap.gen
+}
+
+// blockedGids returns the goroutines that the runtime reports as waiting for a lock or a channel.
 func blockedGids() map[uint64]bool {
-	buf := make([]byte, 1<<16)
+	buf := make([]byte, 1<<17)
 	for {
 		n := runtime.Stack(buf, true)
 		if n < len(buf) {
@@ -115,7 +144,15 @@ func blockedGids() map[uint64]bool {
 		buf = make([]byte, 2*len(buf))
 	}
 	out := map[uint64]bool{}
-	for _, blk := range bytes.Split(buf, []byte("\n\n")) {
+	for len(buf) > 0 {
+		// one block per goroutine: "goroutine N [state...]:" then frames, then an empty line
+		end := bytes.Index(buf, []byte("\n\n"))
+		blk := buf
+		if end >= 0 {
+			blk, buf = buf[:end], buf[end+2:]
+		} else {
+			buf = nil
+		}
 		if !bytes.HasPrefix(blk, []byte("goroutine ")) {
 			continue
 		}
@@ -123,16 +160,17 @@ func blockedGids() map[uint64]bool {
 		if i := bytes.IndexByte(blk, '\n'); i >= 0 {
 			line = blk[:i]
 		}
-		f := bytes.Fields(line)
-		if len(f) < 3 {
+		sp := bytes.IndexByte(line[10:], ' ')
+		if sp < 0 {
 			continue
 		}
-		g, err := strconv.ParseUint(string(f[1]), 10, 64)
+		g, err := strconv.ParseUint(string(line[10:10+sp]), 10, 64)
 		if err != nil {
 			continue
 		}
-		st := string(bytes.TrimRight(bytes.TrimLeft(bytes.Join(f[2:], []byte(" ")), "["), "]:"))
-		// only waits that another task must end count as blocked (GC assist, preemption etc. do not)
+		st := string(bytes.TrimLeft(line[10+sp+1:], "["))
+		// only waits that another task must end count as blocked (GC assist, preemption, the
+		// stop-the-world semacquire of a snapshot etc. do not)
 		for _, w := range []string{"sync.Mutex.Lock", "sync.RWMutex.Lock", "sync.RWMutex.RLock", "chan receive", "chan send", "select", "sync.Cond.Wait", "sync.WaitGroup.Wait"} {
 			if strings.HasPrefix(st, w) {
 				out[g] = true
@@ -172,15 +210,25 @@ func (s *ParkSched) Run() error {
 				blocked = 0
 				break
 			}
-			if spin > 20 {
+			if spin > 50 {
 				// blocked means: seen waiting on a lock/channel in three successive snapshots (a brief
 				// contention on a process-wide lock, e.g. with another worker, must not count)
 				all := true
-				for rep := 0; rep < 3 && all; rep++ {
-					if rep > 0 {
-						time.Sleep(30 * time.Microsecond)
+				gen := uint64(0)
+				snap.mu.Lock()
+				gen = snap.gen // only snapshots taken from now on count
+				snap.mu.Unlock()
+				need := 1
+				s.mu.Lock()
+				for _, t := range running {
+					if !t.wasBlocked {
+						need = 3
 					}
-					bl := blockedGids()
+				}
+				s.mu.Unlock()
+				for rep := 0; rep < need && all; rep++ {
+					var bl map[uint64]bool
+					bl, gen = snapshotAfter(gen)
 					for _, t := range running {
 						if !bl[t.gid] {
 							all = false
@@ -199,6 +247,13 @@ func (s *ParkSched) Run() error {
 					s.mu.Unlock()
 					if still == len(running) {
 						blocked = still
+						s.mu.Lock()
+						for _, t := range running {
+							if !t.parked && !t.done {
+								t.wasBlocked = true
+							}
+						}
+						s.mu.Unlock()
 						break
 					}
 					continue
